@@ -13,13 +13,15 @@
            before the Install, by fewer than WriteQuorum of the voters that answered its recovery
            probe (the installing node plus every voter neither down nor dropped by the call),
          - code 1 otherwise (truncation although >= WriteQuorum holders answered).
-   Entries reported lost by a code-2 step are forgotten, so that the aftermath of the known defect
-   (index reuse) is not reported as something else. *)
+   Entries reported lost by a code-2 step are moved to a separate list, so that the aftermath of the
+   known defect is not reported as something else: the index may be reused, and a deposed leader may
+   still replay the old receipt from its retained-command cache (a receipt that only covers entries
+   acknowledged before, live or lost, is a replay: no new quorum is demanded for it). *)
 From WK Require Import Base.Base.
 From WK Require Export Model.ReplicaLog Model.QuorumLog Model.Cluster.
 Open Scope N_scope.
 
-Record c01_state := C01State { ca_acked : list (N * N); ca_down : list N }.
+Record c01_state := C01State { ca_acked : list (N * N); ca_down : list N; ca_lost : list (N * N) }.
 
 Fixpoint acked_at (l : list (N * N)) (idx : N) : option N :=
   match l with
@@ -48,11 +50,15 @@ Definition c01_step (cfg : qconfig) (st : c01_state) (prev : list (N * robs))
                                        | Some id => negb (id =? snd p)
                                        | None => false
                                        end) new in
-      let fresh := existsb (fun p => match acked_at (ca_acked st) (fst p) with Some _ => false | None => true end) new in
+      let known (p : N * N) :=
+        match acked_at (ca_acked st) (fst p) with
+        | Some _ => true
+        | None => existsb (fun l => (fst l =? fst p) && (snd l =? snd p)) (ca_lost st)
+        end in
+      let fresh := existsb (fun p => negb (known p)) new in
       let holders := countb (fun w => forallb (holds full w) new) vs in
       let code := if missing || changed then 1 else if fresh && (holders <? cf_quorum cfg) then 1 else 0 in
-      (C01State (filter (fun p => match acked_at (ca_acked st) (fst p) with Some _ => false | None => true end) new
-                 ++ ca_acked st) (ca_down st), code)
+      (C01State (filter (fun p => negb (known p)) new ++ ca_acked st) (ca_down st) (ca_lost st), code)
   | OInstall node _ _ _ f, RInstalled _ _ _ =>
       let lost := filter (fun p => negb (holds full node p)) (ca_acked st) in
       match lost with
@@ -61,10 +67,11 @@ Definition c01_step (cfg : qconfig) (st : c01_state) (prev : list (N * robs))
           let responders := node :: filter (fun w => negb (w =? node) && negb (memN w (ca_down st)) &&
                                                      negb (memN w (fl_drop f))) vs in
           let k1 := forallb (fun p => countb (fun w => holds prev w p) responders <? cf_quorum cfg) lost in
-          (C01State (filter (fun p => holds full node p) (ca_acked st)) (ca_down st), if k1 then 2 else 1)
+          (C01State (filter (fun p => holds full node p) (ca_acked st)) (ca_down st) (if k1 then lost ++ ca_lost st else ca_lost st),
+           if k1 then 2 else 1)
       end
-  | ODown node, _ => (C01State (ca_acked st) (node :: filter (fun v => negb (v =? node)) (ca_down st)), 0)
-  | OUp node, _ => (C01State (ca_acked st) (filter (fun v => negb (v =? node)) (ca_down st)), 0)
+  | ODown node, _ => (C01State (ca_acked st) (node :: filter (fun v => negb (v =? node)) (ca_down st)) (ca_lost st), 0)
+  | OUp node, _ => (C01State (ca_acked st) (filter (fun v => negb (v =? node)) (ca_down st)) (ca_lost st), 0)
   | _, _ => (st, 0)
   end.
 
@@ -77,7 +84,7 @@ Fixpoint c01_run (cfg : qconfig) (st : c01_state) (prev : list (N * robs))
   end.
 
 Definition c01_code (cfg : qconfig) (steps : list (qop * qres * list (N * robs))) : N :=
-  c01_run cfg (C01State [] []) [] steps.
+  c01_run cfg (C01State [] [] []) [] steps.
 
 Definition C01_mismatch : qcase -> bool := q_mismatch.
 Definition C01_monitor (c : qcase) : N := c01_code (cs_cfg c) (expand_steps [] (cs_steps c)).
